@@ -585,3 +585,7 @@ def run(ctx):
     _run_main_mf(ctx)
     malformed(ctx)
     ctx.flush()
+
+
+# evidence: how the model is tied to the source on every run (as built, supersedes the value above)
+TIE = 'translator (format digits -> Gen/Consts, writer and loaders -> Gen/LoaderFns; Props/C16Gen, C16GenFns) + correspondence at the byte level (incl. a malformed-file stream)'
